@@ -286,4 +286,68 @@ theorem bsp_stale_witness :
     (bspResize (bspGet .len ⟨[238, 238, 238, 238], 0⟩) 2).elems = [238, 238] ∧
     (bspResize (bspFresh 4) 2).elems = [0, 0] := by decide
 
+/-! ### `Resize` never transfers ownership of its argument -/
+
+/-- T1: in byteslicepool.go only `Put` hands a slice to the pool and only `Get` takes one out —
+in particular `Resize` does not pool its argument -/
+theorem bsp_only_put_pools :
+    Kit.Generated.C08.bspPutCallers = ["Put"] ∧ Kit.Generated.C08.bspGetCallers = ["Get"] ∧
+    Kit.Generated.C08.bspPutCallers.contains "Resize" = false := by decide
+
+/-- **`Resize` keeps ownership where it was.** Running `Resize` (as the source has it: no `Put`)
+from any discipline state in which the caller holds `orig` with `len` written cells: the program
+keeps the discipline, everything the caller held — `orig` included — is still held with at least
+the same written prefix, and when it grows the caller additionally holds the new array with the
+copy.  (Within the capacity nothing happens at all.) -/
+theorem bsp_resize_keeps_ownership (g : Ghost) (ok : GhostOk g) (h len : Nat) (grow : Bool) (H : Holds g h len) :
+    ∃ g', gRun g (bspResizeProg (Kit.Generated.C08.bspPutCallers.contains "Resize") h g.nh len grow) = some g' ∧
+      (∀ x w, Holds g x w → Holds g' x w) ∧ Holds g' h len ∧
+      (grow = true → Holds g' g.nh len) := by
+  rw [bsp_only_put_pools.2.2]
+  obtain ⟨g', hg', _, p, hgrow, _⟩ := bspResize_ok ok h len grow H
+  exact ⟨g', hg', p, p _ _ H, fun e => (hgrow e).2⟩
+
+/-- hence callers of the pool — Get, write, Resize (growing or not), keep using BOTH the original
+and the result, Put both — keep the discipline, for all data -/
+theorem bsp_callers_wf (vals more : List Byte) (grow : Bool) :
+    wf (bspCallerProg (Kit.Generated.C08.bspPutCallers.contains "Resize") vals grow more) = true ∧
+    wf (bspUserProg vals) = true := by
+  rw [bsp_only_put_pools.2.2]
+  exact ⟨bspCaller_wf vals more grow, bspUser_wf vals⟩
+
+/-- so any number of them, interleaved in any way with any pool behaviour, never share a live
+array and read back exactly what they read when alone -/
+theorem bsp_callers_independent (spec : Nat → Option (List Byte × List Byte × Bool)) {s : State}
+    (h : Reach (fun t => match spec t with
+      | some (vals, more, grow) => bspCallerProg (Kit.Generated.C08.bspPutCallers.contains "Resize") vals grow more
+      | none => []) s) :
+    (∀ t, accessOk s t = true) ∧
+    (∀ t u x y, x ∈ (s.thr t).g.live → y ∈ (s.thr u).g.live → (s.thr t).tbl x = (s.thr u).tbl y → t = u ∧ x = y) ∧
+    (∀ t, (s.thr t).prog = [] → (s.thr t).log = soloLog (match spec t with
+      | some (vals, more, grow) => bspCallerProg (Kit.Generated.C08.bspPutCallers.contains "Resize") vals grow more
+      | none => [])) := by
+  have hwf : ∀ t, wf ((fun t => match spec t with
+      | some (vals, more, grow) => bspCallerProg (Kit.Generated.C08.bspPutCallers.contains "Resize") vals grow more
+      | none => []) t) = true := by
+    intro t
+    simp only
+    cases spec t with
+    | none => rfl
+    | some p => obtain ⟨vals, more, grow⟩ := p; exact (bsp_callers_wf vals more grow).1
+  have I := ownership_inv _ hwf h
+  exact ⟨I.1, I.2.2.1, fun t hf => pipelines_independent_final _ hwf h t hf⟩
+
+/-- **Witness for a `Resize` that hands its argument to the pool** (the caller still holds it and
+Puts it again): the discipline is broken; after caller 0 the array is in the pool twice; callers 1
+and 2 each `Get` it and both hold it live; caller 1 reads back caller 2's bytes `[67,67]` instead
+of its own `[66,66]`.  Beside it the same callers with the `Resize` of the source: the second
+hand-out of array 0 is impossible, caller 2 gets another array, caller 1 reads its own bytes. -/
+theorem bsp_resize_repool_witness :
+    wf (bspCallerProg true [65, 65] true [65]) = false ∧
+    (let s := runSched (init (bspWitnessProgs true)) (bspWitnessSched (some 0))
+     (s.thr 1).tbl 0 = (s.thr 2).tbl 0 ∧ 0 ∈ (s.thr 1).g.live ∧ 0 ∈ (s.thr 2).g.live ∧
+     (s.thr 1).log = [[67, 67]] ∧ soloLog ((bspWitnessProgs true 1).take 4) = [[66, 66]]) ∧
+    (let s := runSched (init (bspWitnessProgs false)) (bspWitnessSched (some 0))
+     (s.thr 1).tbl 0 ≠ (s.thr 2).tbl 0 ∧ (s.thr 1).log = [[66, 66]]) := by decide +kernel
+
 end Kit.C08
